@@ -3,6 +3,7 @@ import Starcal.SrcTie.Jalali
 import Starcal.SrcTie.Ethiopian
 import Starcal.SrcTie.Proleptic
 import Starcal.SrcTie.Indian
+import Starcal.SrcTie.Hijri
 import Starcal.Props.C01
 import Starcal.Props.C02
 /-! Source tie, calendars: C01 and C02 stated DIRECTLY about the functions translated from today's source
@@ -87,6 +88,11 @@ theorem src_indian_national : SourceOK indian_ToJd indian_JdTo indian_GetMonthLe
   ⟨indian_translates.jd_roundtrip C01_indian_national (fun y m _ _ => by
       have := iMonthLen_range y m; simp only [Drv.calInd]; omega),
    indian_translates.consecutive C02_indian_national⟩
+
+theorem src_hijri_arithmetic : SourceOK hijri_ToJd hijri_JdTo hijri_GetMonthLen false :=
+  ⟨hijri_translates.jd_roundtrip C01_hijri_arithmetic (fun y m _ _ => by
+      have := Hijri.monthLen_range y m; simp only [Drv.calHijA]; omega),
+   hijri_translates.consecutive C02_hijri_arithmetic⟩
 
 /-- non-vacuity: the translated julian code on a concrete day -/
 example : julian_JdTo 2440588 = some ⟨1969, 12, 19⟩ ∧ julian_ToJd ⟨1969, 12, 19⟩ = some 2440588 := by decide
